@@ -8,6 +8,7 @@ replies are built by `Reply::parameters` / `Reply::error`, i.e. carry no
 `continues` member of their own (`PlainActs`).
 -/
 import VarlinkVerif.Lemmas.Wire
+import VarlinkVerif.Lemmas.WireExtracted
 
 namespace VV
 
@@ -166,5 +167,20 @@ example :
   intro a ha
   simp at ha
   rcases ha with rfl | rfl | rfl | rfl <;> simp [PlainAct, Reply.params]
+
+/-- Tie by extraction (DESIGN §4.2): the gate of `C05_gate` is the one in the source now
+    (`reply_struct` and `wants_more` in /repo/varlink/src/lib.rs, read on every run). -/
+theorem C05_gate_is_source (req : Request) (st : CallSt) (r : Reply) :
+    replyStruct req st r = replyStructE req st r ∧
+    wantsMore req = ExtractedWire.wantsMoreE req.more req.oneway req.upgrade :=
+  ⟨replyStruct_is_source req st r, wantsMore_is_source req⟩
+
+/-- over the extracted gate alone: a `continues` reply to a call without `more` is refused whatever the
+    oneway flag (the refusal comes BEFORE the oneway early return: an implementation that streams to
+    a oneway caller is told so), and a written reply is marked exactly when `continues` is set -/
+theorem C05_source_gate_refuses_first (oneway : Bool) :
+    ExtractedWire.gate true false oneway = .refuse ∧
+    (∀ c w, ExtractedWire.gate c w oneway = .write → ExtractedWire.markContinues c w oneway = c) := by
+  cases oneway <;> decide
 
 end VV
